@@ -26,6 +26,11 @@ ASSUMPTIONS = [
     "sum are required; max_iter >= 1 (max_iter=0 raises UnboundLocalError, outside the property's quantifier)",
     "modularity of an edgeless graph: the formula divides by m = 0; both the code (0.0) and modularityDef (Lean's "
     "x/0 = 0) give 0",
+    "a neighbour function may return any Iterable (one-shot iterators included) and may answer differently after "
+    "the caller edits the graph: each call must answer for the graph as presented at that call (class "
+    "stale_result_after_edit = wrong after an edit although a fresh neighbour function on the same graph is right); "
+    "for set/frozenset answers the iteration order is CPython's, so bridge order and the Louvain partition are not "
+    "compared with the mirror there (R_prop only)",
     "node labels are distinct non-negative integers (the theorems assume G.nodes.Nodup); `v < w` on labels is the "
     "integer order",
 ]
@@ -33,8 +38,13 @@ RULE = ("graphs with <= 9 nodes (<= 12 in every third thorough case): random spa
         "cliques and stars joined by bridges or shared vertices; every undirected edge listed from one side, the "
         "other, or both; self loops, duplicate neighbours, neighbours outside the node set, isolated nodes, shuffled "
         "node and neighbour order, non-contiguous labels; damping in (0,1), resolution > 0, tol and max_iter varied "
-        "or left at their defaults; non-trivial = at least one cut vertex or at least two distinct core numbers; "
-        "distinct by canonical (nodes, neighbour lists, parameters)")
+        "or left at their defaults; every graph is presented through a neighbour function returning a fresh iterable "
+        "of a random style per case or per node (list, tuple, set, frozenset, dict keys view, generator, iter, map, "
+        "filter); one case in seven is a multi-step history: one mutable adjacency dict behind ONE neighbour function "
+        "object, 2-4 edits (add/remove entries, add/remove nodes) interleaved with calls of the entry points in varying "
+        "orders, every call judged against the graph as it is at that call; non-trivial = at least one cut vertex or "
+        "at least two distinct core numbers (in some call of a history); distinct by canonical (nodes, neighbour "
+        "lists, styles, steps, parameters)")
 EPS = Fraction(1, 10**9)
 LV_FUEL = 2000
 
@@ -143,12 +153,121 @@ def gen_case(rng, big: bool):
     if rng.random() < 0.6:
         params["resolution"] = rng.choice([1.0, 0.5, 2.0, 0.1, 5.0, 0.999, round(rng.uniform(0.05, 3.0), 2),
                                            rng.uniform(0.01, 4.0)])
-    return {"nodes": labels, "nbrs": nbrs, "k": rng.choice([0, 1, 1, 2, 2, 3, 4, 6]), "params": params}
+    if rng.random() < 0.7:
+        styles = [rng.choice(STYLES)] * n
+    else:
+        styles = [rng.choice(STYLES) for _ in range(n)]
+    return {"nodes": labels, "nbrs": nbrs, "k": rng.choice([0, 1, 1, 2, 2, 3, 4, 6]), "params": params,
+            "styles": styles}
+
+
+# how a neighbour function may hand over its answer: every `Iterable` is legal, a fresh one per call
+STYLES = ["list", "list", "tuple", "set", "frozenset", "dictkeys", "genfunc", "iter", "map", "filter"]
+UNORDERED = {"set", "frozenset"}
+
+
+def present(style, lst):
+    """A fresh iterable of the given style over the entries of `lst` (what a user's neighbour function returns)."""
+    if style == "tuple":
+        return tuple(lst)
+    if style == "set":
+        return set(lst)
+    if style == "frozenset":
+        return frozenset(lst)
+    if style == "dictkeys":
+        return dict.fromkeys(lst).keys()
+    if style == "genfunc":
+        def g():
+            yield from lst
+        return g()
+    if style == "iter":
+        return iter(list(lst))
+    if style == "map":
+        return map(int, lst)
+    if style == "filter":
+        return filter(lambda x: True, lst)
+    return list(lst)
+
+
+def effective(case):
+    """The neighbour lists as the functions see them when they walk the returned iterable once."""
+    st = case.get("styles") or ["list"] * len(case["nodes"])
+    return [list(present(y, l)) for y, l in zip(st, case["nbrs"])]
+
+
+CALLS = ["articulation_points", "bridges", "kcore_decomposition", "kcore", "pagerank", "louvain"]
+
+
+def gen_history(rng):
+    """One mutable adjacency dict, ONE neighbour function object, edits interleaved with calls."""
+    while True:
+        base = gen_case(rng, big=False)
+        if 3 <= len(base["nodes"]) <= 8:
+            break
+    nodes = list(base["nodes"])
+    adj = {v: list(l) for v, l in zip(nodes, base["nbrs"])}
+    steps = []
+
+    def calls():
+        r = rng.random()
+        if r < 0.35:
+            fns = ["articulation_points", "bridges"]
+        elif r < 0.6:
+            fns = ["bridges", "articulation_points"]
+        else:
+            fns = []
+        fns += rng.sample(CALLS, rng.choice([0, 1, 1, 2]))
+        if not fns:
+            fns = [rng.choice(CALLS)]
+        if rng.random() < 0.3:
+            rng.shuffle(fns)
+        return [["call", f] for f in fns]
+
+    steps += calls()
+    fresh = max(nodes + [0]) + 1
+    for _ in range(rng.randint(2, 4)):
+        ops = []
+        for _ in range(rng.choice([1, 1, 2, 3])):
+            r = rng.random()
+            entries = [(u, w) for u in nodes for w in adj[u]]
+            if r < 0.4 and len(nodes) >= 2:
+                u, w = rng.sample(nodes, 2)
+                ops.append(["add", u, w])
+                adj[u].append(w)
+                if rng.random() < 0.6:
+                    ops.append(["add", w, u])
+                    adj[w].append(u)
+            elif r < 0.78 and entries:
+                u, w = rng.choice(entries)
+                ops.append(["del", u, w])
+                adj[u].remove(w)
+                if w in adj and u in adj[w] and rng.random() < 0.7:
+                    ops.append(["del", w, u])
+                    adj[w].remove(u)
+            elif r < 0.9:
+                x = fresh
+                fresh += 1
+                nb = rng.sample(nodes, min(len(nodes), rng.choice([0, 1, 2])))
+                pos = rng.randint(0, len(nodes))
+                ops.append(["addnode", x, nb, pos, rng.choice(STYLES)])
+                nodes.insert(pos, x)
+                adj[x] = list(nb)
+            elif len(nodes) > 2:
+                x = rng.choice(nodes)
+                ops.append(["delnode", x])
+                nodes.remove(x)
+                del adj[x]
+        if ops:
+            steps.append(["edit", ops])
+            steps += calls()
+    return {**base, "kind": "history", "steps": steps}
+
+
 
 
 def edge_cases():
-    def c(nodes, nbrs, k=1, **params):
-        return {"nodes": nodes, "nbrs": nbrs, "k": k, "params": params}
+    def c(nodes, nbrs, k=1, styles=None, **params):
+        return {"nodes": nodes, "nbrs": nbrs, "k": k, "params": params, "styles": styles or ["list"] * len(nodes)}
     yield c([], [])
     yield c([5], [[5]])
     yield c([0, 1], [[1], []])                                   # one edge listed from one side
@@ -160,72 +279,93 @@ def edge_cases():
     yield c([0, 1, 2, 3], [[1, 1, 0], [0], [3, 9], [2, 2]], k=1, damping=0.5, resolution=2.0)
     yield c([2, 0, 1], [[0], [1], [2]], damping=0.99, tol=1e-12, max_iter=5000)  # directed 3-cycle
     yield c([0, 1, 2, 3], [[1], [2], [3], []], damping=0.85, max_iter=1)         # dangling sink, MAX_ITER
+    # one-shot iterables: generator function / iter / map (a second walk over the same object sees nothing)
+    for sty in ("genfunc", "iter", "map", "filter", "set", "dictkeys", "tuple"):
+        yield c([0, 1, 2, 3], [[1, 2], [2], [0, 3, 3], []], k=1, styles=[sty] * 4)
+    # history: a chain closed into a ring, same node list, same neighbour function object
+    chain = [[1], [0, 2], [1, 3], [2, 4], [3, 5], [4]]
+    yield {**c([0, 1, 2, 3, 4, 5], chain), "kind": "history",
+           "steps": [["call", "articulation_points"], ["call", "bridges"], ["edit", [["add", 5, 0], ["add", 0, 5]]],
+                     ["call", "articulation_points"], ["call", "bridges"], ["call", "kcore_decomposition"],
+                     ["edit", [["del", 2, 3], ["del", 3, 2]]], ["call", "bridges"], ["call", "articulation_points"],
+                     ["call", "pagerank"], ["call", "louvain"]]}
 
 
 # ---------------------------------------------------------------------------
 # implementation side (runs in a worker process)
 # ---------------------------------------------------------------------------
 
-def impl(case, only=None):
+FNS = ["articulation_points", "bridges", "kcore_decomposition", "kcore", "pagerank", "louvain"]
+
+
+def call_fn(fn, nodes, nb, case):
+    """Call one of the five entry points and canonicalise what it returns."""
     from solvor.articulation import articulation_points, bridges
     from solvor.community import louvain
     from solvor.kcore import kcore, kcore_decomposition
     from solvor.pagerank import pagerank
+    p = case["params"]
+    try:
+        if fn == "articulation_points":
+            return ("ok", sorted(articulation_points(list(nodes), nb).solution))
+        if fn == "bridges":
+            return ("ok", [list(e) for e in bridges(list(nodes), nb).solution])
+        if fn == "kcore_decomposition":
+            return ("ok", [[v, c] for v, c in kcore_decomposition(list(nodes), nb).solution.items()])
+        if fn == "kcore":
+            return ("ok", sorted(kcore(list(nodes), nb, case["k"]).solution))
+        if fn == "pagerank":
+            kw = {k: p[k] for k in ("damping", "tol", "max_iter") if k in p}
+            r = pagerank(list(nodes), nb, **kw)
+            keys = list(r.solution.keys())
+            return ("ok", {"status": r.status.name, "keys": keys,
+                           "bits": [fbits(float(r.solution[v])) for v in keys],
+                           "rats": [rat(r.solution[v]) for v in keys]})
+        if fn == "louvain":
+            kw = {"resolution": p["resolution"]} if "resolution" in p else {}
+            r = louvain(list(nodes), nb, **kw)
+            return ("ok", {"comms": [sorted(c) for c in r.solution], "modularity": rat(r.objective)})
+        raise ValueError(fn)
+    except Exception as e:  # noqa: BLE001 - the error kind is an observable
+        return ("err", f"{type(e).__name__}: {e}"[:300])
 
+
+def impl(case, only=None):
     nodes = list(case["nodes"])
     adj = {v: list(l) for v, l in zip(nodes, case["nbrs"])}
-    p = case["params"]
+    styles = dict(zip(nodes, case.get("styles") or ["list"] * len(nodes)))
 
-    def nb(v):
-        return list(adj[v])
+    def nb(v):  # ONE function object per case; a fresh iterable on every call
+        return present(styles.get(v, "list"), adj.get(v, []))
 
-    def guard(f):
-        if only is not None and f.__name__ != only:
-            return ("ok", None)
-        try:
-            return ("ok", f())
-        except Exception as e:  # noqa: BLE001 - the error kind is an observable
-            return ("err", f"{type(e).__name__}: {e}"[:300])
-
+    if case.get("kind") == "history":
+        done, edited = [], False
+        for step in case["steps"]:
+            if step[0] == "edit":
+                edited = True
+                for op in step[1]:
+                    if op[0] == "add" and op[1] in adj:
+                        adj[op[1]].append(op[2])
+                    elif op[0] == "del" and op[1] in adj and op[2] in adj[op[1]]:
+                        adj[op[1]].remove(op[2])
+                    elif op[0] == "addnode" and op[1] not in adj:
+                        nodes.insert(min(op[3], len(nodes)), op[1])
+                        adj[op[1]] = [x for x in op[2]]
+                        styles[op[1]] = op[4]
+                    elif op[0] == "delnode" and op[1] in adj and len(nodes) > 1:
+                        nodes.remove(op[1])
+                        del adj[op[1]]
+            else:
+                snap = {"nodes": list(nodes), "nbrs": [list(adj[v]) for v in nodes],
+                        "styles": [styles.get(v, "list") for v in nodes]}
+                done.append({"fn": step[1], "res": call_fn(step[1], nodes, nb, case), "snap": snap,
+                             "after_edit": edited})
+        return {"steps": done}
     out = {}
-    def f_ap():
-        return sorted(articulation_points(list(nodes), nb).solution)
-
-    def f_br():
-        return [list(e) for e in bridges(list(nodes), nb).solution]
-
-    def f_kd():
-        return [[v, c] for v, c in kcore_decomposition(list(nodes), nb).solution.items()]
-
-    def f_ks():
-        return sorted(kcore(list(nodes), nb, case["k"]).solution)
-    f_ap.__name__, f_br.__name__, f_kd.__name__, f_ks.__name__ = FNS[:4]
-    out["articulation_points"] = guard(f_ap)
-    out["bridges"] = guard(f_br)
-    out["kcore_decomposition"] = guard(f_kd)
-    out["kcore"] = guard(f_ks)
-
-    def pr():
-        kw = {k: p[k] for k in ("damping", "tol", "max_iter") if k in p}
-        r = pagerank(list(nodes), nb, **kw)
-        keys = list(r.solution.keys())
-        return {"status": r.status.name, "keys": keys,
-                "bits": [fbits(float(r.solution[v])) for v in keys],
-                "rats": [rat(r.solution[v]) for v in keys]}
-    pr.__name__ = "pagerank"
-    out["pagerank"] = guard(pr)
-
-    def lv():
-        kw = {"resolution": p["resolution"]} if "resolution" in p else {}
-        r = louvain(list(nodes), nb, **kw)
-        return {"comms": [sorted(c) for c in r.solution], "modularity": rat(r.objective)}
-    lv.__name__ = "louvain"
-    out["louvain"] = guard(lv)
+    for fn in FNS:
+        out[fn] = ("ok", None) if only is not None and fn != only else call_fn(fn, nodes, nb, case)
     out["unchanged"] = adj == {v: list(l) for v, l in zip(case["nodes"], case["nbrs"])}
     return out
-
-
-FNS = ["articulation_points", "bridges", "kcore_decomposition", "kcore", "pagerank", "louvain"]
 
 
 def impl_single(arg):
@@ -237,17 +377,36 @@ def _scalar(p, key):
     return None if key not in p else [rat(p[key]), fbits(float(p[key]))]
 
 
-def to_request(case, out):
-    p = case["params"]
+def to_request(seen, out):
+    """`seen` = the graph as the functions see it (effective neighbour lists)."""
+    p = seen["params"]
     ipr = ilv = None
     if out[0] == "ok":
         o = out[1]
-        if o["pagerank"][0] == "ok" and o["pagerank"][1]["keys"] == case["nodes"]:
+        if o["pagerank"][0] == "ok" and o["pagerank"][1] is not None and o["pagerank"][1]["keys"] == seen["nodes"]:
             ipr = [o["pagerank"][1]["status"], o["pagerank"][1]["rats"]]
-        if o["louvain"][0] == "ok":
+        if o["louvain"][0] == "ok" and o["louvain"][1] is not None:
             ilv = [o["louvain"][1]["comms"], o["louvain"][1]["modularity"]]
-    return ["case", case["nodes"], case["nbrs"], case["k"], _scalar(p, "damping"), _scalar(p, "tol"),
+    return ["case", seen["nodes"], seen["nbrs"], seen["k"], _scalar(p, "damping"), _scalar(p, "tol"),
             p.get("max_iter"), _scalar(p, "resolution"), LV_FUEL, rat(EPS), ipr, ilv]
+
+
+def views(case, out):
+    """Split a case into the graphs that were actually presented to a call: [(seen, out-like, meta)]."""
+    if case.get("kind") == "history":
+        if out[0] != "ok":
+            return []
+        items = []
+        for i, st in enumerate(out[1]["steps"]):
+            sn = st["snap"]
+            seen = {"nodes": sn["nodes"], "nbrs": effective(sn), "styles": sn["styles"], "k": case["k"],
+                    "params": case["params"], "raw": sn["nbrs"]}
+            o = {fn: ("ok", None) for fn in FNS}
+            o[st["fn"]] = tuple(st["res"])
+            items.append((seen, ("ok", o), {"hist": True, "after_edit": st["after_edit"], "step": i, "fn": st["fn"]}))
+        return items
+    seen = {**case, "nbrs": effective(case), "raw": case["nbrs"]}
+    return [(seen, out, None)]
 
 
 # ---------------------------------------------------------------------------
@@ -267,25 +426,37 @@ def features(case):
                             not any(v in adj[u] for u in nodes if u != v) for v in nodes)}
 
 
-def judge(ctx, case, out, reply):
-    rep = {"case": case, "impl": out, "model": reply}
+def judge(ctx, case, out, reply, orig=None, meta=None):
+    """R_prop / R_trace for one presented graph `case` (effective lists). Returns the non-triviality flag."""
+    rep = {"case": orig if orig is not None else case, "impl": out, "model": reply}
+    if meta:
+        rep["call"] = meta
+        rep["graph_at_call"] = {"nodes": case["nodes"], "nbrs": case.get("raw", case["nbrs"]),
+                                "styles": case.get("styles")}
     feat = features(case)
     tag = ":asymmetric" if feat["asymmetric"] else ""
+    styles = case.get("styles") or []
+    ordered = not (set(styles) & UNORDERED)
     for f, on in feat.items():
         if on:
             ctx.count("input:" + f)
+    for y in set(styles):
+        ctx.count("style:" + y)
+    if any(y in ("genfunc", "iter", "map", "filter") for y in styles):
+        ctx.count("input:one_shot_iterable")
     ctx.count(f"n={len(case['nodes'])}")
-    for key in ("damping", "tol", "max_iter", "resolution"):
-        ctx.count(f"{key}:" + ("given" if key in case["params"] else "default"))
+    if not meta:
+        for key in ("damping", "tol", "max_iter", "resolution"):
+            ctx.count(f"{key}:" + ("given" if key in case["params"] else "default"))
     if out[0] != "ok":
         ctx.fail("articulation_points", "raises:" + err_kind(out), f"worker failed: {out[1]}", rep)
-        return
+        return None
     o = out[1]
     defs, mirror, pr, prv, lv, lvv = reply
     ncomp, d_ap, d_br, d_core, d_kset = defs
     m_ap, m_br, m_core, m_kset = mirror
     nodes = case["nodes"]
-    if not o["unchanged"]:
+    if not o.get("unchanged", True):
         ctx.fail("articulation_points", "input_modified", "a neighbour list was modified", rep)
 
     def got(fn):
@@ -293,7 +464,7 @@ def judge(ctx, case, out, reply):
         if r[0] != "ok":
             ctx.fail(fn, "raises:" + r[1].split(":", 1)[0] + tag, f"{fn} raised on a graph in the quantifier: {r[1]}", rep)
             return None
-        return r[1]
+        return r[1]  # None = not called in this view
 
     # --- cut vertices ------------------------------------------------------------------------
     ap = got("articulation_points")
@@ -302,7 +473,7 @@ def judge(ctx, case, out, reply):
             ctx.fail("articulation_points", "cut_vertices_wrong" + tag,
                      f"returned {ap}; removal increases the component count exactly for {sorted(d_ap)}", rep)
         elif sorted(m_ap) != ap:
-            ctx.tdiv("articulation_points", {"case": case, "impl": ap, "mirror": m_ap})
+            ctx.tdiv("articulation_points", {"case": rep["case"], "impl": ap, "mirror": m_ap})
         else:
             ctx.count("cert:cut_vertices")
     # --- bridges -----------------------------------------------------------------------------
@@ -311,8 +482,8 @@ def judge(ctx, case, out, reply):
         if sorted(map(tuple, br)) != sorted(map(tuple, d_br)):
             ctx.fail("bridges", "bridges_wrong" + tag,
                      f"returned {br}; removal increases the component count exactly for {sorted(d_br)}", rep)
-        elif br != m_br:
-            ctx.tdiv("bridges", {"case": case, "impl": br, "mirror": m_br})
+        elif ordered and br != m_br:
+            ctx.tdiv("bridges", {"case": rep["case"], "impl": br, "mirror": m_br})
         else:
             ctx.count("cert:bridges")
     # --- core numbers --------------------------------------------------------------------------
@@ -323,7 +494,7 @@ def judge(ctx, case, out, reply):
             ctx.fail("kcore_decomposition", "core_numbers_wrong" + tag,
                      f"returned {sorted(map(tuple, kd))}; repeated deletion gives {want}", rep)
         elif sorted(map(tuple, m_core)) != want:
-            ctx.tdiv("kcore_decomposition", {"case": case, "impl": kd, "mirror": m_core})
+            ctx.tdiv("kcore_decomposition", {"case": rep["case"], "impl": kd, "mirror": m_core})
         else:
             ctx.count("cert:core_numbers")
     ks = got("kcore")
@@ -332,7 +503,7 @@ def judge(ctx, case, out, reply):
             ctx.fail("kcore", "kcore_set_wrong" + tag, f"kcore(k={case['k']}) returned {ks}; nodes with core number "
                      f">= k are {sorted(d_kset)}", rep)
         elif sorted(m_kset) != ks:
-            ctx.tdiv("kcore", {"case": case, "impl": ks, "mirror": m_kset})
+            ctx.tdiv("kcore", {"case": rep["case"], "impl": ks, "mirror": m_kset})
     # --- PageRank ------------------------------------------------------------------------------
     p = got("pagerank")
     if p is not None:
@@ -354,7 +525,7 @@ def judge(ctx, case, out, reply):
             else:
                 ctx.count("cert:pagerank")
                 if (p["status"], p["bits"]) != (pr[0], pr[2]):
-                    ctx.tdiv("pagerank", {"case": case, "impl": [p["status"], p["bits"]], "mirror": [pr[0], pr[2]]})
+                    ctx.tdiv("pagerank", {"case": rep["case"], "impl": [p["status"], p["bits"]], "mirror": [pr[0], pr[2]]})
                 else:
                     ctx.count("r_trace:pagerank_bit_equal")
     # --- Louvain -------------------------------------------------------------------------------
@@ -370,21 +541,26 @@ def judge(ctx, case, out, reply):
             ctx.count("cert:louvain")
             if lv is None:
                 ctx.count("louvain_mirror_out_of_fuel")
+            elif not ordered:
+                ctx.count("r_trace:louvain_skipped_unordered_iterable")
             elif sorted(map(sorted, lv[0])) != sorted(l["comms"]):
-                ctx.tdiv("louvain", {"case": case, "impl": l["comms"], "mirror": lv[0]})
+                ctx.tdiv("louvain", {"case": rep["case"], "impl": l["comms"], "mirror": lv[0]})
             else:
                 ctx.count("r_trace:louvain_partition_equal")
     ctx.cov["cert_checked_impl"] = sum(v for k, v in ctx.cov["histogram"].items() if k.startswith("cert:"))
-    ctx.cov["r_trace_agree"] = sum(v for k, v in ctx.cov["histogram"].items() if k.startswith("r_trace:"))
+    ctx.cov["r_trace_agree"] = sum(v for k, v in ctx.cov["histogram"].items() if k.startswith("r_trace:p") or
+                                   k.startswith("r_trace:louvain_partition"))
     ctx.cov["missing_theorems"] = []
-    ctx.count(f"components={min(ncomp, 4)}{'+' if ncomp >= 4 else ''}")
-    ctx.count(f"cut_vertices={min(len(d_ap), 3)}")
-    ctx.count(f"bridges={min(len(d_br), 3)}")
-    ctx.count(f"core_levels={len(set(d_core))}")
     nontrivial = len(d_ap) >= 1 or len(set(d_core)) >= 2
-    canon = [nodes, case["nbrs"], case["k"], sorted(case["params"].items())]
-    ctx.case(canon, nontrivial, {"case": case, "cut_vertices": d_ap, "bridges": d_br, "core": d_core,
-                                 "impl_ap": o["articulation_points"], "impl_bridges": o["bridges"]})
+    if not meta:
+        ctx.count(f"components={min(ncomp, 4)}{'+' if ncomp >= 4 else ''}")
+        ctx.count(f"cut_vertices={min(len(d_ap), 3)}")
+        ctx.count(f"bridges={min(len(d_br), 3)}")
+        ctx.count(f"core_levels={len(set(d_core))}")
+        canon = [nodes, case.get("raw", case["nbrs"]), styles, case["k"], sorted(case["params"].items())]
+        ctx.case(canon, nontrivial, {"case": rep["case"], "cut_vertices": d_ap, "bridges": d_br, "core": d_core,
+                                     "impl_ap": o["articulation_points"], "impl_bridges": o["bridges"]})
+    return nontrivial
 
 
 class Probe:
@@ -412,21 +588,80 @@ class Probe:
 
 
 def evaluate(cases):
+    """Run the implementation and the model; returns per case (out, [(seen, out-like, meta, reply)])."""
     outs = run_pool(impl, cases, timeout=30.0)
-    reqs = [to_request(c, o) for c, o in zip(cases, outs)]
-    replies = Driver("Net").run(reqs, chunks=16)
-    for c, rp in zip(cases, replies):
+    flat, index = [], []
+    for c, o in zip(cases, outs):
+        vs = views(c, o) if o[0] != "timeout" else []
+        index.append(len(vs))
+        flat += vs
+    replies = Driver("Net").run([to_request(seen, po) for seen, po, _ in flat], chunks=16)
+    for (seen, _, _), rp in zip(flat, replies):
         if rp and rp[0] == "error":
-            raise core.Infra(f"model rejected request: {rp} for {c}")
-    return outs, replies
+            raise core.Infra(f"model rejected request: {rp} for {seen}")
+    res, pos = [], 0
+    for o, k in zip(outs, index):
+        res.append((o, [(*flat[pos + j], replies[pos + j]) for j in range(k)]))
+        pos += k
+    return res
+
+
+def judge_case(ctx, case, out, items):
+    """Judge everything that was presented in one case; history calls are classified stale vs plainly wrong."""
+    if case.get("kind") != "history":
+        for seen, po, meta, rp in items:
+            judge(ctx, seen, po, rp, orig=case, meta=meta)
+        return
+    ctx.count("history_cases")
+    if out[0] != "ok":
+        ctx.fail(case["steps"][-1][1], "raises:" + err_kind(out), f"history worker failed: {out[1]}",
+                 {"case": case, "impl": out})
+        return
+    nontrivial = False
+    for seen, po, meta, rp in items:
+        ctx.count("history_calls")
+        ctx.count("history_call_after_edit" if meta["after_edit"] else "history_call_before_edit")
+        pr = Probe(ctx)
+        nontrivial = bool(judge(pr, seen, po, rp, orig=case, meta=meta)) or nontrivial
+        for function, klass, what, rep in pr.fails:
+            if meta["after_edit"] and not klass.startswith("raises:"):
+                # the same graph through a FRESH neighbour function: right there => the answer was stale
+                fresh = {"nodes": seen["nodes"], "nbrs": seen["raw"], "styles": seen["styles"], "k": seen["k"],
+                         "params": seen["params"]}
+                (fo, fitems), = evaluate([fresh])
+                fp = Probe()
+                for s2, po2, m2, rp2 in fitems:
+                    judge(fp, s2, po2, rp2, orig=fresh)
+                if not any(f[0] == function for f in fp.fails):
+                    klass = "stale_result_after_edit"
+                    what = (f"call {meta['step']} ({function}) after an edit of the graph behind the same neighbour "
+                            f"function: {what}; a fresh call on the same graph is right")
+            ctx.fail(function, klass, what, rep)
+    canon = [case["nodes"], case["nbrs"], case.get("styles"), case["steps"], case["k"], sorted(case["params"].items())]
+    ctx.case(canon, nontrivial, {"case": case})
+
+
+def failing(case, out, items):
+    pr = Probe()
+    judge_case(pr, case, out, items)
+    return pr.fails
 
 
 def shrink_candidates(case):
-    """One-step structural reductions: drop a node, drop a neighbour entry, drop a parameter."""
+    """One-step structural reductions: drop a step / an edit op / a node / a neighbour entry / a parameter."""
+    if case.get("kind") == "history":
+        steps = case["steps"]
+        for i in range(len(steps)):
+            yield {**case, "steps": steps[:i] + steps[i + 1:]}
+        for i, st in enumerate(steps):
+            if st[0] == "edit" and len(st[1]) > 1:
+                for j in range(len(st[1])):
+                    yield {**case, "steps": steps[:i] + [["edit", st[1][:j] + st[1][j + 1:]]] + steps[i + 1:]}
     nodes, nbrs = case["nodes"], case["nbrs"]
+    styles = case.get("styles") or ["list"] * len(nodes)
     for i in range(len(nodes)):
         gone = nodes[i]
-        yield {**case, "nodes": nodes[:i] + nodes[i + 1:],
+        yield {**case, "nodes": nodes[:i] + nodes[i + 1:], "styles": styles[:i] + styles[i + 1:],
                "nbrs": [[x for x in l if x != gone] for j, l in enumerate(nbrs) if j != i]}
     for i, l in enumerate(nbrs):
         for j in range(len(l)):
@@ -435,6 +670,8 @@ def shrink_candidates(case):
         yield {**case, "params": {a: b for a, b in case["params"].items() if a != key}}
     if case["k"] > 0:
         yield {**case, "k": case["k"] - 1}
+    if any(y != "list" for y in styles):
+        yield {**case, "styles": ["list"] * len(nodes)}
 
 
 def shrink(case, function, klass, max_rounds=40):
@@ -445,21 +682,19 @@ def shrink(case, function, klass, max_rounds=40):
         cands = list(shrink_candidates(case))
         if not cands:
             break
-        outs, replies = evaluate(cands)
         found = None
-        for c, o, rp in zip(cands, outs, replies):
+        for c, (o, items) in zip(cands, evaluate(cands)):
             if o[0] != "ok":
                 continue
-            pr = Probe()
-            judge(pr, c, o, rp)
-            hit = [f for f in pr.fails if f[0] == function and f[1] == klass]
+            hit = [f for f in failing(c, o, items) if f[0] == function and f[1] == klass]
             if hit:
                 found = (c, hit[0])
                 break
         if found is None:
             break
         case, best = found
-        history.append({"nodes": len(case["nodes"]), "entries": sum(len(l) for l in case["nbrs"])})
+        history.append({"nodes": len(case["nodes"]), "entries": sum(len(l) for l in case["nbrs"]),
+                        "steps": len(case.get("steps", []))})
     return case, best, history
 
 
@@ -467,18 +702,21 @@ SHRINK_LIMIT = 6  # violations shrunk per run (each costs a few driver round tri
 
 
 def run_cases(ctx, cases, do_shrink=True):
-    outs, replies = evaluate(cases)
     shrunk = 0
-    for c, o, rp in zip(cases, outs, replies):
+    for c, (o, items) in zip(cases, evaluate(cases)):
         if o[0] == "timeout":
+            if c.get("kind") == "history":
+                ctx.fail(c["steps"][-1][1], "timeout", f"history case: no answer within {o[1]} s",
+                         {"case": c, "impl": o})
+                continue
             # attribute the timeout: run the functions one by one
             for fn, r in zip(FNS, run_pool(impl_single, [(c, fn) for fn in FNS], timeout=30.0)):
                 if r[0] == "timeout":
                     ctx.fail(fn, "timeout", f"no answer within {r[1]} s on a graph with {len(c['nodes'])} nodes",
-                             {"case": c, "impl": r, "model": rp})
+                             {"case": c, "impl": r})
             continue
         pr = Probe(ctx)
-        judge(pr, c, o, rp)
+        judge_case(pr, c, o, items)
         for function, klass, what, rep in pr.fails:
             if do_shrink and shrunk < SHRINK_LIMIT and ctx.known_match(function, klass) is None \
                     and len(ctx.violations) < 20:
@@ -493,7 +731,11 @@ def run(ctx, budget):
     ctx.cov["rule"] = RULE
     cases = list(edge_cases()) + [c["case"] for c in core.load_corpus("C15")]
     n = 2500 * budget
-    cases += [gen_case(ctx.rng, big=(ctx.tier == "thorough" and i % 3 == 0)) for i in range(n)]
+    for i in range(n):
+        if i % 7 == 3:  # a fixed share of multi-step histories, both tiers
+            cases.append(gen_history(ctx.rng))
+        else:
+            cases.append(gen_case(ctx.rng, big=(ctx.tier == "thorough" and i % 3 == 0)))
     run_cases(ctx, cases)
 
 
